@@ -74,3 +74,4 @@ Print Assumptions C03_altered_S_rejected.
 Print Assumptions C03_model_is_the_source.
 Print Assumptions C03_VerifyMimc7_iff.
 Print Assumptions C03_verifiers_never_panic.
+Print Assumptions C03_VerifyPoseidon_iff.
